@@ -529,4 +529,72 @@ def loopsNonEmpty : Forest → Bool
      | .loop _, .nil => false
      | _, _ => true) && loopsNonEmpty body && loopsNonEmpty rest
 
+
+/-! ### containers: several routines in one module
+
+A PSyIR `Container` (Fortran module) is the list of its routines, in order.  `FortranWriter` visits
+the routines one after the other; every check that looks at "the routine" (`self.ancestor(Routine)`
+in `ACCLoopDirective`, `self.parent` in `ACCRoutineDirective` / `OMPDeclareTargetDirective`) sees the
+routine the directive is in and nothing else, so each routine is validated with ITS OWN `Env`
+(`envOf r`: does this routine carry an `acc routine` directive, does it contain compute regions /
+OpenMP).  The first exception ends the run. -/
+
+abbrev Container := List Forest
+
+/-- the routine carries an `!$acc routine` directive (what `parent_routine.walk(ACCRoutineDirective)`
+answers for the directives of that routine) -/
+def hasAccRoutine (r : Forest) : Bool := (envOf r).ar
+
+/-- the routine starts with `!$omp declare target` -/
+def hasDeclareTarget : Forest → Bool
+  | .cons .ompDeclareTarget _ _ => true
+  | _ => false
+
+def writerC : Container → Outcome
+  | [] => .accept
+  | r :: rs => (writer r).andThen (writerC rs)
+
+def writerAcceptsC (c : Container) : Bool := writerC c == .accept
+
+/-- every routine satisfies the guarded rules, each w.r.t. its own routine-level facts -/
+def guardedValidC (c : Container) : Prop := ∀ r, r ∈ c → guardedValid r
+def specValidC (c : Container) : Prop := ∀ r, r ∈ c → specValid r
+
+def coreOkC (c : Container) : Bool := c.all fun r => coreOk (envOf r) .first [] r
+def rectOkC (c : Container) : Bool := c.all rectOk
+def mixOkC (c : Container) : Bool := c.all (mixOk [])
+def nowaitOkC (c : Container) : Bool := c.all nowaitOk
+
+/-- A WEAKENED rule that is NOT the code: the "is this an `acc routine`" lookup searches the whole
+tree (`self.root.walk(ACCRoutineDirective)`) instead of the enclosing routine. -/
+def leakEnv (all : Container) (r : Forest) : Env := ⟨all.any containsAccRoutine, routineBad r⟩
+
+def writerLeakAux (all : Container) : Container → Outcome
+  | [] => .accept
+  | r :: rs => (writerAux (leakEnv all r) .first [] r).andThen (writerLeakAux all rs)
+
+def writerLeakC (c : Container) : Outcome := writerLeakAux c c
+
+/-- a transformation applied to (a node of) routine number `ri` of the container -/
+structure COp where
+  ri : Nat
+  op : Op
+  deriving Repr
+
+/-- apply `g` to the `i`-th routine -/
+def modifyNth : Nat → (Forest → Option Forest) → Container → Option Container
+  | _, _, [] => none
+  | 0, g, r :: rs => (g r).map (· :: rs)
+  | i+1, g, r :: rs => (modifyNth i g rs).map (r :: ·)
+
+def applyCOp (o : COp) (c : Container) : Option Container := modifyNth o.ri (applyOp o.op) c
+
+/-- containers produced by a history of accepted transformations (each applied to some routine) from
+a directive-free module -/
+inductive ReachableC : Container → Prop where
+  | start (c : Container) : c.all dirFree = true → ReachableC c
+  | step (c c' : Container) (o : COp) : ReachableC c → applyCOp o c = some c' → ReachableC c'
+
+def loopsNonEmptyC (c : Container) : Bool := c.all loopsNonEmpty
+
 end C10
